@@ -155,7 +155,7 @@ CrashTags(logAbort, pre, x, log, ek, gr) ==
 Comparable(expAbort, logAbort) == logAbort = "" /\ expAbort \in {"", "norpc"}
 
 -----------------------------------------------------------------------------
-Init == st = [dead |-> TRUE] /\ g = [seen |-> {}, nodeHas |-> {}, chain |-> {}, lastAcc |-> {}, tower_id |-> "", granted |-> {}] /\ l = 1 /\ tags = {} /\ alive = FALSE
+Init == st = [dead |-> TRUE] /\ g = [seen |-> {}, nodeHas |-> {}, chain |-> {}, lastAcc |-> {}, tower_id |-> "", granted |-> {}, flagged |-> FALSE] /\ l = 1 /\ tags = {} /\ alive = FALSE
 
 \* Boot: volatile state rebuilt from the database rows and the node's last blocks (inputs).
 StepBoot ==
@@ -221,6 +221,7 @@ StepAdd ==
            log == LogOr(Ev, exp.st, st.wCache, st.rIndex)
            E == [act |-> "Add", who |-> Ev.who, a |-> a, reply |-> Ev.reply, sends |-> sends, orc |-> orc]
            g2 == [g EXCEPT !.granted = Resync(@, log),
+                           !.flagged = IF \E i \in 1..Len(Ev.rpc) : Ev.rpc[i][3] = "err" THEN FALSE ELSE @,
                            !.nodeHas = @ \cup {tx \in 0..MAXTX : orc[tx] \in {"ok", "mem", "res"}},
                            !.lastAcc = IF Ev.abort = "" /\ Ev.reply.code = "ok" /\ HasKey(log.appts, <<Ev.who, Ev.l>>)
                                           /\ RowOf(log.appts, <<Ev.who, Ev.l>>).ver = Ev.ver
@@ -230,6 +231,7 @@ StepAdd ==
        IN /\ st' = log
           /\ g' = g2
           /\ tags' = tags
+                \cup (IF (\E i \in 1..Len(Ev.rpc) : Ev.rpc[i][3] = "err") /\ ~g.flagged THEN T("C12", "outage_not_flagged") ELSE {})
                 \cup ConservationTags(g.granted, log)
                 \cup AbortTags(exp.abort, Ev.abort, "C01")
                 \cup CrashTags(Ev.abort, st, exp.st, log, <<Ev.who, Ev.l>>, g.granted)
@@ -408,18 +410,25 @@ StepRefFinal ==
 StepFlag ==
     /\ Ev.act = "Flag"
     /\ st' = [st EXCEPT !.reachable = Ev.reachable]
-    /\ UNCHANGED <<g, tags, alive>>
+    /\ g' = IF ~Ev.reachable THEN [g EXCEPT !.flagged = TRUE] ELSE g
+    /\ UNCHANGED <<tags, alive>>
 
 \* C12: a tower thread is still blocked although the node is reachable again and a poll was attempted
 StepHung ==
     /\ Ev.act = "Hung"
-    /\ tags' = tags \cup T("C12", "hung:" \o Ev.op)
+    /\ tags' = tags \cup T(IF "prop" \in DOMAIN Ev THEN Ev.prop ELSE "C12", "hung:" \o Ev.op)
+    /\ UNCHANGED <<st, g, alive>>
+
+\* the code under test took the whole process down (stack overflow, abort): nothing answers any more
+StepDied ==
+    /\ Ev.act = "Died"
+    /\ tags' = tags \cup T("C11", "process_died")
     /\ UNCHANGED <<st, g, alive>>
 
 StepInit ==
     /\ Ev.act = "Init"
     /\ st' = [dead |-> TRUE]
-    /\ g' = [seen |-> {}, nodeHas |-> {}, chain |-> {}, lastAcc |-> {}, tower_id |-> "", granted |-> {}]
+    /\ g' = [seen |-> {}, nodeHas |-> {}, chain |-> {}, lastAcc |-> {}, tower_id |-> "", granted |-> {}, flagged |-> FALSE]
     /\ alive' = FALSE
     /\ UNCHANGED tags
 
@@ -432,7 +441,7 @@ Next ==
     /\ l <= Len(Rec)
     /\ l' = l + 1
     /\ \/ StepInit \/ StepBoot \/ StepRegister \/ StepAdd \/ StepGet \/ StepSub
-       \/ StepGkConnect \/ StepWConnect \/ StepRConnect \/ StepDisc \/ StepPollEnd \/ StepNote \/ StepRefFinal \/ StepFlag \/ StepHung \/ StepEnd
+       \/ StepGkConnect \/ StepWConnect \/ StepRConnect \/ StepDisc \/ StepPollEnd \/ StepNote \/ StepRefFinal \/ StepFlag \/ StepHung \/ StepDied \/ StepEnd
 
 Spec == Init /\ [][Next]_vars
 =============================================================================
